@@ -884,7 +884,7 @@ func init() {
 		os.Exit(0)
 	}
 	props["C20"] = func(x *Ctx) {
-		x.rule = "a case = a generated valid sequence of 3..8 persistent updates over a small world (<= 8 logins, <= 6 news paths, 4 addresses) drawn from: board post, news category/bundle create, article post (with and without parent), article delete, category delete, account create / modify / rename onto a free login / rename onto an existing login (must be refused untouched) / delete, ban add (temporary / permanent); the last update's kind is cycled so that every kind is the in-flight one equally often; the crash point ranges over EVERY system-call boundary of the last update. " +
+		x.rule = "a case = a generated valid sequence of 3..8 persistent updates over a small world (<= 8 logins, <= 6 news paths, 4 addresses) drawn from: board post, news category/bundle create, article post (with and without parent), article delete, category delete, account create / modify / rename onto a free login / rename onto an existing login (must be refused untouched) / delete, ban add (temporary / permanent); the last update's kind is cycled so that every kind is the in-flight one equally often; when it is a ban, half of the cases are the first ban ever (no Banlist.yaml in the initial directory, the one store file whose absence the loader accepts); the crash point ranges over EVERY system-call boundary of the last update. " +
 			"non-trivial = the last update made at least one system call on the config directory and old != new (or is a refused rename onto an existing login); distinct = (kind of the in-flight update, its arguments, pre-state listing)"
 		x.assume = []string{
 			"a kill lands between two system calls (a kill in the middle of one write(2) is not modelled); no power loss (page cache survives)",
@@ -922,7 +922,12 @@ func c20Case(c *Case, realKill bool) {
 	board := []byte(c20Token(r, r.Pick(0, 1, 200, 3000)))
 	os.WriteFile(filepath.Join(d0, "MessageBoard.txt"), board, 0644)
 	os.WriteFile(filepath.Join(d0, "ThreadedNews.yaml"), []byte(emptyNews), 0644)
-	if r.Chance(50) {
+	// Banlist.yaml is the one store file whose ABSENCE the loader accepts (= empty list).  When a ban is the in-flight
+	// update, half of the cases are the first ban ever: no file initially and no earlier ban in the sequence, so every
+	// crash point of the update that CREATES the file is judged.
+	wantLast := c20Kinds[int(c.Seed%uint64(len(c20Kinds)))]
+	firstBan := wantLast == "ban-add" && r.Chance(50)
+	if !firstBan && r.Chance(50) {
 		os.WriteFile(filepath.Join(d0, "Banlist.yaml"), []byte("10.9.9.9: null\n"), 0644)
 	}
 	// temp files left behind by earlier crashes (killed after the temp file was written, before the rename): short ones
@@ -948,7 +953,6 @@ func c20Case(c *Case, realKill bool) {
 	stale(filepath.Join(d0, "ThreadedNews.yaml.tmp"), true)
 	stale(filepath.Join(d0, "Banlist.yaml.tmp"), true)
 	// updates; the last one's kind is cycled over all kinds
-	wantLast := c20Kinds[int(c.Seed%uint64(len(c20Kinds)))]
 	n := 3 + r.Intn(6)
 	var ups []c20Update
 	bias := map[string]string{"board-post": "board", "ban-add": "ban"}[wantLast]
@@ -959,9 +963,20 @@ func c20Case(c *Case, realKill bool) {
 		bias = "acct"
 	}
 	kindOf := c20KindOf
-	for len(ups) < n-1 {
-		ups = append(ups, c20Gen(r, w, bias))
+	if firstBan {
+		bias = ""
 	}
+	for len(ups) < n-1 {
+		u := c20Gen(r, w, bias)
+		if firstBan && u.Kind == "ban-add" { // (a ban does not change the generator's world: dropping it is safe)
+			continue
+		}
+		ups = append(ups, u)
+	}
+	if firstBan {
+		bias = "ban"
+	}
+	c.Note("first_ban_ever", firstBan)
 	for tries := 0; ; tries++ {
 		save := *w
 		save.logins = append([]string{}, w.logins...)
@@ -978,7 +993,7 @@ func c20Case(c *Case, realKill bool) {
 		}
 		*w = save
 		w.arts = arts
-		if tries%25 == 24 { // the wanted kind needs something that does not exist yet: add one more preparatory update
+		if tries%25 == 24 && !firstBan { // the wanted kind needs something that does not exist yet: add one more preparatory update
 			ups = append(ups, c20Gen(r, w, bias))
 		}
 	}
@@ -1172,6 +1187,9 @@ func c20Case(c *Case, realKill bool) {
 		c.Nontrivial(fmt.Sprintf("%s|%v|%s|%s", kindOf(last), last, c20Listing(pre, ""), c20Listing(pre, "Users")))
 	}
 	c.Dist("in-flight/" + kindOf(last))
+	if firstBan {
+		c.Dist("in-flight/ban-add-first-ever(no Banlist.yaml)")
+	}
 	c.Dist(fmt.Sprintf("calls/%d", len(lastCalls)))
 	c.Sample(map[string]any{"in_flight": kindOf(last), "updates": len(ups), "calls": c20CallsCanon(lastCalls, dir), "verdicts": strings.Join(verdicts, ",")})
 
